@@ -331,8 +331,8 @@ mzd_t *mzd_from_jcf(const char *fn, int verbose) {
 
   while (fscanf(fh, "%ld\n", &j) == 1) {
     if (j < 0) { i++, j = -j; }
-    if (((j - 1) >= n) || (i >= m))
-      m4ri_die("trying to write to (%ld,%ld) in %ld x %ld matrix\n", i, j - 1, m, n);
+    if ((j == 0) || (i < 0) || ((j - 1) >= n) || (i >= m))
+      m4ri_die("trying to write to (%ld,%ld) in %ld x %ld matrix\n", i, j - 1, (long)m, (long)n);
     mzd_write_bit(A, i, j - 1, 1);
   };
 
